@@ -120,6 +120,10 @@ class FileUploader(service.MultiService, Referenceable):
         # atomic rename from foo.deb.partial to foo.deb
 
         tmpfile = targetfile.siblingExtension(".partial")
+        if tmpfile.islink():
+            # never write through a pre-existing symlink: it may point
+            # outside of the target directory
+            tmpfile.remove()
 
         # TODO: use os.open and set the file mode earlier
         #f = open(tmpfile, "w")
